@@ -138,6 +138,11 @@ class RecHook(Hooks):
     def post_iteration(self, step, level_number):
         super().post_iteration(step, level_number)
         self._r('post_iteration', step, level_number)
+        r = current()
+        if r is not None:
+            L = step.levels[0]
+            if L.uend is not None:  # what a per-iteration solution hook logs at this moment
+                r.all_post_steps.append((r.tick(L.time + L.dt), step.status.iter, r.hid(L.uend)))
 
     def pre_sweep(self, step, level_number):
         super().pre_sweep(step, level_number)
